@@ -224,6 +224,9 @@ class FakePool(object):
     def _start(self, kind, func, tasks):
         if self.closed:
             raise ValueError("Pool not running")
+        # a pool object that the code keeps alive across operations is driven by the controller in force NOW
+        if ACTIVE is not None:
+            self.ctl = ACTIVE
         if self.ctl.boundary:
             # the function itself must be transferable to a worker
             if self.flavor == "pathos":
